@@ -24,6 +24,7 @@ type Knobs struct {
 	PSyncLedger    float64 // a node that is behind copies the next block from a peer
 	PAdv           float64 // adversary move
 	PNotify        float64 // OnNewTransaction to a subscribed node when its pool is non-empty
+	PTxAtPoolRead  float64 // a transaction arrives right after an (empty) read of the verified pool, i.e. inside the library call
 	NotifyAll      bool    // deliver OnNewTransaction to every subscribed node as soon as a tx arrives
 	FIFO           bool    // always pick the oldest deliverable envelope / lowest node id (deterministic schedule)
 	SlowNode       int     // node with extra inbound latency (-1: none)
@@ -171,6 +172,12 @@ func (c *Cluster) AddTx(bad bool, missProb float64) *Tx {
 			if n.Live() && n.Subscribed {
 				if _, ok := n.Pool[t.Hash()]; ok {
 					n.Subscribed = false
+					if c.InsideAPI() {
+						// the application cannot call back into the library from one of its callbacks:
+						// the notification is delivered as soon as the current call has returned
+						c.deferred = append(c.deferred, n)
+						continue
+					}
 					n.NewTxNotify()
 					c.afterAPI(n)
 				}
@@ -178,6 +185,31 @@ func (c *Cluster) AddTx(bad bool, missProb float64) *Tx {
 		}
 	}
 	return t
+}
+
+// InsideAPI tells whether some node is executing a library call right now.
+func (c *Cluster) InsideAPI() bool {
+	for _, n := range c.Nodes {
+		if n.depth > 0 {
+			return true
+		}
+	}
+	return false
+}
+
+func (c *Cluster) runDeferred() bool {
+	if len(c.deferred) == 0 {
+		return false
+	}
+	l := c.deferred
+	c.deferred = nil
+	for _, n := range l {
+		if n.Live() {
+			n.NewTxNotify()
+			c.afterAPI(n)
+		}
+	}
+	return true
 }
 
 // afterAPI runs the documented application loop step that follows an API call.
@@ -243,6 +275,9 @@ func (c *Cluster) Step(hooks *Hooks) bool {
 	}
 	k := &c.Cfg.K
 
+	if c.runDeferred() {
+		return true
+	}
 	if c.dueTxs() {
 		return true
 	}
